@@ -54,6 +54,9 @@ THEOREMS = [
     'Nb.C09.generated_outCls_agree',
     'Nb.C09.saved_affine_close',
     'Nb.C09.generated_transform_rules_agree',
+    'Nb.C09.fs0_wf',
+    'Nb.C09.fs0_clsWF',
+    'Nb.C09.hdrEdits_spec',
 ]
 ASSUMPTIONS = [
     'hand-written Lean model of save()/to_filename/to_file_map/ArrayProxy/get_fdata cache over an ABSTRACT file '
@@ -63,6 +66,9 @@ ASSUMPTIONS = [
     'np.allclose on affines is identity of affine ids in the executable model (the test affines are pairwise far '
     'apart); the decision rule of update_header is proved for any reflexive closeness predicate',
     'load returns the class that wrote the file (header sniffing, .mat side file of SPM images): compared, not proved',
+    'keep_file_open=True is a harness-only variant of load (same model op); on a COMPRESSED source the persistent '
+    'indexed-gzip handle may serve buffered old content after a layout-changing self-save (region of the open '
+    'findings): such random histories are not generated',
     'np.memmap(mode="c") / kernel page cache: modelled as a REFERENCE to the current content of the file; reading it '
     'after truncation or after the file was re-laid-out (other dtype/scaling) = outcome BAD (SIGBUS, zeros, garbage '
     'or OSError are not distinguished: all are violations) — partial: the OS behaviour itself is not verified',
@@ -490,16 +496,19 @@ def random_cases(rng, n, safe_bias=0.7):
         # most random histories avoid the open finding (dtype change followed by a save onto the source) so that
         # long histories stay informative; the rest are unconstrained
         avoid = rng.random() < safe_bias
-        src, dirty = ops[0][1], False
+        # keep_file_open=True on a COMPRESSED source: the persistent (indexed) gzip handle may keep serving buffered old
+        # content after the file was re-laid-out — what the live image then reads is outside the modelled contract,
+        # so such histories always stay inside the guard
+        kfo_comp = lambda o: o[2] in '34' and pidx(o[1]) in COMPRESSED
+        src, dirty, kc = ops[0][1], False, kfo_comp(ops[0])
         while len(ops) < ln:
             o = rand_op(rng)
-            if avoid:
-                if o[0] == 'D':
-                    dirty = True
-                if o[0] == 'L':
-                    src, dirty = o[1], False
-                if o[0] == 'S' and o[1] == src and dirty:
-                    continue
+            if o[0] == 'D':
+                dirty = True
+            if o[0] == 'S' and o[1] == src and dirty and (avoid or kc):
+                continue
+            if o[0] == 'L':
+                src, dirty, kc = o[1], False, kfo_comp(o)
             ops.append(o)
         out.append(mk_case(init, ops, rng.random() < 0.1, 'random'))
     return out
